@@ -994,6 +994,40 @@ theorem C08_parent_idle_variant_witness :
 
 example : exForest.recoveryFilesR (fun n => n != 0) 3 [0, 1, 2, 3, 4, 5] [5, 1] = [] := by decide +kernel
 
+/-! ### the hit test on opaque data (last round)
+
+The term model treats values opaquely and takes "the stored record of a kept node is recognised as equal to its
+inputs" as a hypothesis (`Sound`: the kept nodes' caches are valid — the hypothesis of `C08_no_recall`).  What that
+hypothesis rests on in python: `inputs == record` on dicts tries IDENTITY of each value first and only then asks
+the value's own `==`, which for array-like data (numpy arrays, DataFrames) has no truth value — the comparison raises
+and counts as a miss.  The record holds the very objects of the channels (and pickle's memo keeps that identity in
+the file), so the question is never asked. -/
+
+/-- one entry of the comparison: `(scalar, sameObject)` — does `==` on this kind of data give a yes/no answer, and
+is the recorded object the object on the channel.  Contents are equal in any case (a completed, untouched node). -/
+def valueHit (e : Bool × Bool) : Bool := e.2 || e.1
+
+/-- the record is recognised iff every entry is -/
+def recordHit (es : List (Bool × Bool)) : Bool := es.all valueHit
+
+/-- **the hypothesis of `C08_no_recall`, made explicit**: a record that shares its objects with the channels is
+recognised whatever kind of data flows along the edges -/
+theorem C08_record_identity_hit (es : List (Bool × Bool)) (h : ∀ e ∈ es, e.2 = true) : recordHit es = true := by
+  simp only [recordHit, List.all_eq_true]
+  intro e he; simp [valueHit, h e he]
+
+/-- for scalar data a copy is as good as the object itself -/
+theorem C08_record_scalar_hit (es : List (Bool × Bool)) (h : ∀ e ∈ es, e.1 = true) : recordHit es = true := by
+  simp only [recordHit, List.all_eq_true]
+  intro e he; simp [valueHit, h e he]
+
+/-- **witness for the copying variant** (seeded change C08-14, `_cache_snapshot` stores a deep copy): one array-like
+input whose record is a copy is enough for a miss — the completed node is executed again on resume — while the same
+record sharing its object, or scalar data copied, is a hit -/
+theorem C08_record_copy_witness :
+    recordHit [(true, false), (false, false)] = false ∧ recordHit [(true, false), (false, true)] = true ∧
+    recordHit [(true, false), (true, false)] = true := by decide
+
 /-! ### restoring value links (round 4)
 
 The stored state of a macro already holds every input value at every depth; putting the macro-input → child-input
@@ -1104,6 +1138,9 @@ end PwVerif.C08
 #print axioms PwVerif.C08.C08_recovery_only_at_roots
 #print axioms PwVerif.C08.C08_idle_parent_no_file
 #print axioms PwVerif.C08.C08_parent_idle_variant_witness
+#print axioms PwVerif.C08.C08_record_identity_hit
+#print axioms PwVerif.C08.C08_record_scalar_hit
+#print axioms PwVerif.C08.C08_record_copy_witness
 #print axioms PwVerif.C08.C08_restore_links_writes_nothing
 #print axioms PwVerif.C08.C08_restore_links_same_links
 #print axioms PwVerif.C08.C08_restore_links_setter_partial
